@@ -1,6 +1,7 @@
 """C20 — size and interval literals: exact value, rejection of bad / overflowing ones.
 case: ( kind form payload fmt )
-  kind 0 SizeTriggerConfig.limit | 1 TimeTriggerConfig.interval
+  kind 0 SizeTriggerConfig.limit | 1 TimeTriggerConfig.interval | 2 RawConfig.refresh_rate (forms 2/3 only;
+       impl result ( crate humantime ), model result (2): compared by `compare`, not by equality)
   form 0 integer scalar (payload Z) | 1 float scalar (payload literal text) |
        2 quoted string (payload code points) | 3 YAML plain scalar (payload code points) |
        4 integer scalar in an alternative YAML spelling (payload ( Z text ))
@@ -9,7 +10,13 @@ result: (0) rejected | (1 limit) | (1 unit n)"""
 import itertools
 from vcommon import Zv
 
-RULE = ("exhaustive part: every letter case of every unit spelling (9 size spellings = 50 casings, 14 interval "
+RULE = ("refresh_rate family (direct oracle, not a Coq model): the literal is deserialised as RawConfig.refresh_rate "
+        "(YAML and JSON) and the Duration must equal what the humantime crate returns for the SAME literal, and, "
+        "for literals made of integers and documented units, an independent table (ns us ms s/sec/second(s) "
+        "m/min/minute(s) h/hr/hour(s) d/day(s) w/week(s) M/month(s)=30.44d y/year(s)=365.25d; sums such as '1h 30m'); "
+        "case variants of documented units that are not units themselves must be rejected. Literals: every unit "
+        "spelling as given / upper / lower / mixed case, with and without spaces, sums, bare numbers, '0', junk, "
+        "overflowing numbers. size/interval families - exhaustive part: every letter case of every unit spelling (9 size spellings = 50 casings, 14 interval "
         "spellings = 648 casings) x numbers {0, 1, 1023, 1024, every overflow threshold floor(2^64/mult)-1/0/+1, "
         "floor(2^63/mult)-1/0/+1, 2^63-1/0/+1, 2^64-1/0/+1, 10^19, 20 nines, 25 digits, leading zeros}; every "
         "white-space placement (none, space, tab, several, NBSP, U+2003/U+3000, LF, U+0085, trailing variants) x every "
@@ -20,12 +27,15 @@ RULE = ("exhaustive part: every letter case of every unit spelling (9 size spell
         "random compositions number+ws+unit-ish+ws. The casing x number product is taken in full (quick: one front-end per "
         "literal chosen at random, thorough: both). non-trivial = integer/float scalar, or a string with a non-empty digit prefix (the parser gets "
         "past its first rejection); distinct = distinct case line")
-ASSUMPTIONS = ["serde_yaml 0.9 / serde_json 1.0 hand a scalar to the visitor as modelled: integers in [0,2^64) to "
+ASSUMPTIONS = ["refresh_rate: humantime 2.4.0 (third party) is the oracle, it is not modelled in Coq; the log4rs logic checked "
+               "here is only 'the literal reaches humantime unchanged and humantime's errors are rejections'",
+               "serde_yaml 0.9 / serde_json 1.0 hand a scalar to the visitor as modelled: integers in [0,2^64) to "
                "visit_u64, in [-2^63,0) to visit_i64, other numbers (floats, wider integers) to a visitor method the "
                "config types do not implement (rejected), strings to visit_str unchanged",
                "the other TimeTriggerConfig fields keep their defaults (the harness asserts it)"]
 EXHAUSTIVE = {"quick": False, "thorough": False}
-TRUSTED = ["serde / serde_yaml / serde_json scalar resolution (modelled by the scalar form handed to the visitor, exercised "
+TRUSTED = ["humantime 2.4.0 as the oracle of the refresh_rate family (direct comparison on the same literal)",
+           "serde / serde_yaml / serde_json scalar resolution (modelled by the scalar form handed to the visitor, exercised "
            "on every case)", "Debug rendering of SizeTriggerConfig (read-back of the private limit)",
            "TimeTriggerConfig::verif_parts hook"]
 
@@ -92,8 +102,116 @@ def str_cases(kind, text, fmts=(0, 1), plain=True):
     return out
 
 
+HT_UNITS = {"ns": 1, "nsec": 1, "us": 10 ** 3, "usec": 10 ** 3, "ms": 10 ** 6, "msec": 10 ** 6}
+for _w, _m in (("s sec second seconds", 1), ("m min minute minutes", 60), ("h hr hour hours", 3600),
+               ("d day days", 86400), ("w week weeks", 604800), ("M month months", 2630016),
+               ("y year years", 31557600)):
+    for _u in _w.split():
+        HT_UNITS[_u] = _m * 10 ** 9
+# spellings humantime 2.4 accepts beyond the documented table: the table abstains on them
+HT_EXTRA = {"nanos", "millis", "secs", "mins", "hrs", "wk", "wks", "yr", "yrs"}
+_HT_LOWER = {}
+for _u in HT_UNITS:
+    _HT_LOWER.setdefault(_u.lower(), set()).add(_u)
+
+
+def ht_table(text):
+    """independent reading of a duration literal: ('ok', secs, nanos) | ('reject',) | None (abstain)"""
+    import re
+    if text == "0":
+        return ("ok", 0, 0)
+    if text.strip(" ") == "":
+        return ("reject",)
+    if text.strip(" ").isdigit():
+        return ("reject",)           # a number needs a unit
+    if not re.fullmatch(r"(?: *[0-9]+ *[A-Za-z]+)+ *", text):
+        return None
+    total = 0
+    verdict = "ok"
+    for n, u in re.findall(r"([0-9]+) *([A-Za-z]+)", text):
+        if int(n) >= 10 ** 9:
+            return None              # overflow territory: left to humantime
+        if u in HT_UNITS:
+            total += int(n) * HT_UNITS[u]
+        elif u in HT_EXTRA or u.lower() in HT_EXTRA:
+            return None
+        elif u.lower() in _HT_LOWER:
+            verdict = "reject"       # a case variant of a documented unit that is not a unit itself
+        else:
+            return None
+    if verdict == "reject":
+        return ("reject",)
+    return ("ok", total // 10 ** 9, total % 10 ** 9)
+
+
+def mixed_cases(u, rng):
+    out = {u, u.upper(), u.lower(), u.capitalize(), u.swapcase()}
+    if len(u) > 1:
+        out.add(u[0] + u[1:].upper())
+        out.add("".join(c.upper() if rng.chance(1, 2) else c.lower() for c in u))
+    return sorted(out)
+
+
+def refresh_cases(rng, tier):
+    out = []
+    units = sorted(HT_UNITS) + sorted(HT_EXTRA)
+    nums = [0, 1, 2, 30, 90, 1000, 86400, 10 ** 6]
+    for u in units:
+        for cs in mixed_cases(u, rng):
+            for sp in ("", " ", "  "):
+                n = rng.choice(nums) if sp else 1
+                out += str_cases(2, "%d%s%s" % (n, sp, cs))
+            out += str_cases(2, "%d%s" % (rng.choice(nums), cs), fmts=(rng.below(2),))
+    # capital M (months) against m (minutes), alone and in sums
+    for t in ("1M", "2 M", "1M 1m", "1m 1M", "3M 2w 1d", "1y 2M 3w 4d 5h 6m 7s 8ms 9us 10ns", "1h 30m", "1h30m",
+              "1hour 30min", "2 hours 15 minutes", "1 month", "1 MONTH", "1 Month", "5 MIN", "5 min", "30 Seconds",
+              "30 seconds", "1H", "1D", "1W", "1Y", "1S", "1MS", "1Ms", "1mS", "1US", "1NS", "1 m", "1 M ", " 1M",
+              "12 months", "12 M", "12 m", "1m1M1m", "1 s 1 S"):
+        out += str_cases(2, t)
+    # sums of documented units
+    for _ in range(150 if tier == "quick" else 3000):
+        k = rng.range(1, 4)
+        parts = []
+        for _i in range(k):
+            u = rng.choice(sorted(HT_UNITS))
+            if rng.chance(1, 5):
+                u = rng.choice(mixed_cases(u, rng))
+            parts.append("%d%s%s" % (rng.choice(nums + [rng.below(10 ** 4)]), rng.choice(["", " "]), u))
+        out += str_cases(2, rng.choice(["", " "]).join(parts), fmts=(rng.below(2),))
+    # bare numbers, zero, empty, junk, fractions, overflow
+    for t in ("0", "00", "5", "30", " 30 ", "", " ", "s", "M", "m", "1", "1 ", "-1s", "+1s", "1.5s", "1.5h", "0.5M",
+              "1,5s", "1 s s", "1ss", "1 sm", "1sM", "1x", "1 fortnight", "1µs", "1μs", "1 µs", "1m 30", "30 1m",
+              "18446744073709551615s", "18446744073709551616s", "18446744073709551615ns", "307445734561825861m",
+              "307445734561825860m", "18446744073709551615s 1s", "584554531y", "584554530y", "1e3s", "0x10s", "1_000s",
+              "1s\t1m", "1\ts", "1s#", "１s", "1ｓ", "1 ﻿s", "1s ", "1\u00a0s"):
+        out += str_cases(2, t.encode().decode("unicode_escape") if "\\" in t else t)
+    return out
+
+
+def _ht_expect(tbl):
+    return [0] if tbl == ("reject",) else [1, tbl[1], tbl[2]]
+
+
+def compare(c, iv, mv):
+    kind, form, p, fmt = c
+    if kind != 2:
+        return None if iv == mv else "impl != model"
+    if not isinstance(iv, list) or len(iv) != 2:
+        return "refresh_rate: deserialisation did not return normally: %r" % (iv,)
+    got, direct = iv
+    text = "".join(chr(x) for x in p)
+    if got != direct:
+        return "refresh_rate %r: RawConfig holds %r, humantime::parse_duration(%r) = %r" % (text, got, text, direct)
+    tbl = ht_table(text)
+    if tbl is not None and got != _ht_expect(tbl):
+        return "refresh_rate %r: RawConfig holds %r, the documented unit table says %r" % (text, got, _ht_expect(tbl))
+    return None
+
+
 def corpus():
     out = []
+    for t in ("1M", "1m", "1M 1m", "30 seconds", "30 Seconds", "5 MIN"):
+        out += str_cases(2, t)
     for k in (0, 1):
         for f in (0, 1):
             for t in ("10 KiB ", "17179869184gb", "1.5kb", "-1", "1Kb", "1 ", "3 Weeks", "9223372036854775808",
@@ -105,7 +223,7 @@ def corpus():
 
 
 def cases(rng, tier):
-    out = []
+    out = refresh_cases(rng, tier)
     thorough = tier == "thorough"
     # 1. every casing of every unit x numbers
     for kind, units in ((0, SIZE_UNITS), (1, [(u, None) for u in INT_UNITS])):
@@ -212,7 +330,7 @@ def nontrivial(c):
 
 def classify(c):
     kind, form, p, fmt = c
-    return "%s/%s/%s" % (("size", "interval")[kind], ("int", "float", "quoted", "plain", "altint")[form],
+    return "%s/%s/%s" % (("size", "interval", "refresh_rate")[kind], ("int", "float", "quoted", "plain", "altint")[form],
                          ("yaml", "json")[fmt])
 
 
@@ -226,6 +344,6 @@ def describe(c):
         v = p[1] if isinstance(p[1], str) else bytes(p[1]).decode()
     else:
         v = "".join(chr(x) for x in p)
-    return {"field": ("limit", "interval")[kind], "scalar_form": ("integer", "float", "quoted string", "plain string",
+    return {"field": ("limit", "interval", "refresh_rate")[kind], "scalar_form": ("integer", "float", "quoted string", "plain string",
                                                                   "integer (alternative spelling)")[form],
             "scalar": v, "front_end": ("serde_yaml", "serde_json")[fmt]}
